@@ -184,6 +184,17 @@ def main(argv=None):
     ap.add_argument("--jobs", type=int, default=int(os.environ.get("VERIF_JOBS", "0")) or min(16, os.cpu_count() or 1))
     ap.add_argument("--shard", help="run only the shard with this index (debug)")
     a = ap.parse_args(argv)
+    if not os.environ.get("VERIF_JOBS"):
+        # development aid only: when the machine is badly oversubscribed (many
+        # checks being developed at once) use fewer workers; never changes what is explored
+        try:
+            load = os.getloadavg()[0]
+        except OSError:
+            load = 0
+        if load > 40:
+            a.jobs = min(a.jobs, 4)
+        elif load > 20:
+            a.jobs = min(a.jobs, 8)
     try:
         seed = int(os.environ.get("VERIF_SEED", "0") or 0)
     except ValueError:
